@@ -21,7 +21,7 @@ def run(ctx):
     quick = ctx.tier == "quick"
     kfs = vlib.known_findings("C03")
     reps = 40 if quick else 1500
-    cmd, cases, st = semlib.run_semdrv(ctx, "conc", ctx.seed, 0, extra="-reps %d %s -gen %d" % (reps, "-norace" if quick else "", 12 if quick else 150))
+    cmd, cases, st = semlib.run_semdrv(ctx, "conc", ctx.seed, 0, extra="-reps %d %s -gen %d" % (reps, "-norace" if quick else "", 12 if quick else 60))
     known = {k["item"]: k for k in kfs if k.get("class") == "catalogue"}
     table = {}
     for c in cases:
